@@ -161,6 +161,12 @@ func runProperty(id, tier, vdir string, known *core.KnownFindings, seed int,
 				res.Undecided = append(res.Undecided, c.Undecided...)
 				continue
 			}
+			if ci == 0 {
+				for _, u := range rules.GetAnchors(c).Unclassified {
+					res.Assumptions = append(res.Assumptions, "field "+u+" is not in the anchor table (added after it was frozen); path rules treat stores to it as exempt")
+					fmt.Printf("NOTE property=%s unclassified field %s treated as exempt by the path rules\n", id, u)
+				}
+			}
 			for _, r := range p.Rules {
 				if r.CrossConfig && ci > 0 {
 					continue
